@@ -125,6 +125,8 @@ def run(chk, tier, seed):
     strings += [''.join(t) for t in itertools.product(SMALL, repeat=3)] if tier != 'quick' else [''.join(rnd.choice(SMALL) for _ in range(3)) for _ in range(300)]
     strings += ['c:/a*', '//host/share/a[b', '//?/UNC/h/s/x*', '//?/c:/x|y', 'c:', '//h/s', 'a/./b', './a', '../*', 'a//b/', '/abs/*x', '~user/x', '-a', '!a', 'a\\b', 'a\\\\b', '.\n',
                 ''.join(rnd.choice(ALPHA) for _ in range(8)), ''.join(rnd.choice(ALPHA) for _ in range(12))]
+    for c in '*?[(|{!-~':
+        strings += ['a//' + c + 'b', 'a\\/' + c + 'b', 'a/\\' + c, 'a///' + c, 'a/' + c + '//' + c, c + '//' + c]
     strings = [s for s in dict.fromkeys(strings) if s]
     feature = [W.EXTMATCH, W.BRACE, W.SPLIT, W.NEGATE, W.MINUSNEGATE, W.NEGATEALL, W.GLOBTILDE, W.GLOBSTAR, W.DOTMATCH, W.NODOTDIR, W.RAWCHARS, W.IGNORECASE]
     flagsets = [W.FORCEUNIX, W.FORCEUNIX | sum(feature), W.FORCEWIN, W.FORCEWIN | sum(feature)]
